@@ -335,6 +335,12 @@ func decodeRow(encodedRow []byte, colTypes map[uint32]sql.SQLValueType, maxColID
 	colsCount := binary.BigEndian.Uint32(encodedRow[off:])
 	off += sql.EncLenLen
 
+	// every column takes at least its id: a count the row cannot hold is corrupted
+	// data (and must not size the allocation below)
+	if uint64(colsCount) > uint64(len(encodedRow)-off)/uint64(sql.EncIDLen) {
+		return nil, sql.ErrCorruptedData
+	}
+
 	values := make(map[uint32]*schema.SQLValue, colsCount)
 
 	for i := 0; i < int(colsCount); i++ {
